@@ -314,3 +314,73 @@ def run_binder_write(prog, tier, repo):
                                   f'LocalTypingContext::get_captured unwrap a missing entry and the checker panics')
     res.floor('typed identifier patterns', n, 2)
     return [res]
+
+
+# ---------------------------------------------------------------------------------------------------------------------
+# EXHAUSTIVE-GATE (C03, C06): match lowering adds an "unreachable" fallback panic and `let` destructuring is lowered without
+# any test, both justified only by the checker's exhaustiveness verdict. So every checker function that produces a typed
+# `Match` node or a typed declaration statement must consult the exhaustiveness procedure on every path before, and each
+# negative verdict (a counterexample) must be reported on every path.
+
+def run_exhaustive_gate(prog, tier, repo):
+    from ..cfg import cfg_of, single_def
+    res = RuleResult('EXHAUSTIVE-GATE', 'C06: a match / destructuring that does not cover every case is always reported - every typed '
+                     'Match node and declaration statement is built only after the exhaustiveness procedure ran, and every '
+                     'counterexample it returns is reported')
+    n_gate = n_rep = 0
+    for b in prog.bodies.values():
+        if b.crate != 'samlang_checker' or b.kind == 'closure':
+            continue
+        cfg = None
+        verdicts = [bi for bi, bl in enumerate(b.blocks) if not bl.cleanup and bl.term[0] == 'call'
+                    and (callee(bl.term)[1] or '').endswith('pattern_matching::incomplete_counterexample')]
+        # (1) constructions
+        for bi, bl in enumerate(b.blocks):
+            if bl.cleanup:
+                continue
+            for st in bl.stmts:
+                if st[0] != 'a' or st[2][0] != 'agg' or st[2][1][0] != 'adt':
+                    continue
+                nm = st[2][1][1]
+                if not (nm.endswith('::expr::Match') or nm.endswith('::expr::DeclarationStatement')):
+                    continue
+                ty = b.locals[st[1].local] if not st[1].proj else None
+                if ty is None or not ty.args or ty.args[0].s == '()':
+                    continue        # untyped (parser-side) node or a clone
+                # a construction that merely rebuilds a node from fields of an existing typed node is not a checking site
+                n_gate += 1
+                cfg = cfg or cfg_of(b)
+                key = f'gate:{b.name}:{nm.split("::")[-1]}'
+                if verdicts and cfg.nodes_dominate(verdicts, bi):
+                    res.ok(key, b.loc(st[3]), 'dominated by the exhaustiveness procedure')
+                else:
+                    res.violation(key, b.loc(st[3]), f'{b.name} builds a typed {nm.split("::")[-1]} on a path that never asks the '
+                                  f'exhaustiveness procedure: a non-exhaustive match is accepted and the lowered code falls into the '
+                                  f'"unreachable" panic (or reads a field of the wrong variant) at run time')
+        # (2) every counterexample is reported
+        for vb in verdicts:
+            cfg = cfg or cfg_of(b)
+            t = b.blocks[vb].term
+            n_rep += 1
+            key = f'report:{b.name}'
+            some_targets = []
+            if t[4] is not None and not t[4].proj:
+                for bj, bl in enumerate(b.blocks):
+                    tt = bl.term
+                    if bl.cleanup or tt[0] != 'switch' or tt[1][0] not in ('c', 'm'):
+                        continue
+                    sd = single_def(b, tt[1][1].local)
+                    if sd and sd[1] != 'term' and sd[2][0] == 'disc' and not sd[2][1].proj and sd[2][1].local == t[4].local:
+                        some_targets += [tg for v, tg in tt[2] if v == 1]
+            reports = [bi for bi, bl in enumerate(b.blocks) if not bl.cleanup and bl.term[0] == 'call'
+                       and 'ErrorSet::report_' in (callee(bl.term)[1] or '')]
+            if not some_targets:
+                res.cannot_decide(f'the test of the exhaustiveness verdict in {b.name}', b.loc(t[7]))
+            elif all(cfg.nodes_postdominate(reports, tg) for tg in some_targets):
+                res.ok(key, b.loc(t[7]), 'the counterexample edge is post-dominated by a report')
+            else:
+                res.violation(key, b.loc(t[7]), f'{b.name}: a path on which the exhaustiveness procedure returned a counterexample does '
+                              f'not report an error: the program is accepted although a case is not covered')
+    res.floor('typed match / declaration constructions', n_gate, 2)
+    res.floor('exhaustiveness verdicts', n_rep, 2)
+    return [res]
